@@ -94,7 +94,9 @@ func wrapSyntacticError(state interface {
 				ptr = []byte(Pointer(ptr).Parent()) // problem is with parent array
 			case d.Tokens.Last.isObject():
 				where = "after object value (expecting ',' or '}')"
-				ptr = []byte(Pointer(ptr).Parent()) // problem is with parent object
+				if !d.Tokens.Last.NeedObjectName() {
+					ptr = []byte(Pointer(ptr).Parent()) // problem is with parent object
+				} // otherwise, ptr already points to the object itself
 			}
 		}
 		err = jsonwire.NewInvalidCharacterError(d.buf[pos:], where)
